@@ -135,11 +135,13 @@ pub fn run(sc: &C24Scenario) -> Result<Outcome, String> {
         return Ok(Outcome { violation: Some(("panic".into(), p)), skipped: None, perm_fired: v.perm_fired });
     }
     let mut viol = None;
+    let mut known: Option<(String, String)> = None;
     if v.build_exit != r.build_exit || v.check_exit != r.check_exit {
         viol = Some(("exit".to_string(), format!("build/check exit {:?}/{:?} but reference order and seed give {:?}/{:?}", v.build_exit, v.check_exit, r.build_exit, r.check_exit)));
     } else if v.check_diags != r.check_diags || v.build_diags != r.build_diags {
         viol = Some(("diagnostics-set".to_string(), format!("diagnostics set differs: {:?} vs reference {:?}", v.check_diags.iter().map(|d| d.lines().next().unwrap_or("").to_string()).collect::<Vec<_>>(), r.check_diags.iter().map(|d| d.lines().next().unwrap_or("").to_string()).collect::<Vec<_>>())));
     } else {
+        let mut known_sv: BTreeSet<String> = BTreeSet::new();
         for (rel, data) in &r.outputs {
             let is_list = rel.ends_with(".f") || rel.ends_with(".list.rb");
             match v.outputs.get(rel) {
@@ -183,6 +185,14 @@ pub fn run(sc: &C24Scenario) -> Result<Outcome, String> {
                         break;
                     }
                 }
+                Some(_) if rel.ends_with(".map") && known_sv.contains(rel.trim_end_matches(".map")) => {}
+                Some(d) if sc.variant.perm_seed.is_some() && known_order_shape(rel, d, data, &sc.project).is_some() => {
+                    // a recorded finding (known_findings.json): remembered, the scan goes on so
+                    // that any other difference of this run is still reported instead
+                    let k = known_order_shape(rel, d, data, &sc.project).unwrap();
+                    known_sv.insert(rel.clone());
+                    known.get_or_insert((format!("output-order:{k}"), format!("{rel}: same blocks, other order than the reference build ({k})")));
+                }
                 Some(d) => {
                     let class = if is_list { "filelist-bytes" } else if rel.ends_with(".map") { "map-bytes" } else { "output-bytes" };
                     viol = Some((class.to_string(), format!("{rel}: {:?} vs reference {:?}", String::from_utf8_lossy(&d[..d.len().min(240)]), String::from_utf8_lossy(&data[..data.len().min(240)]))));
@@ -194,7 +204,66 @@ pub fn run(sc: &C24Scenario) -> Result<Outcome, String> {
             viol = Some(("output-extra".to_string(), format!("outputs {:?} vs reference {:?}", v.outputs.keys().collect::<Vec<_>>(), r.outputs.keys().collect::<Vec<_>>())));
         }
     }
-    Ok(Outcome { violation: viol, skipped: None, perm_fired: v.perm_fired })
+    Ok(Outcome { violation: viol.or(known), skipped: None, perm_fired: v.perm_fired })
+}
+
+/// The two recorded order dependences of emitted code, recognised by their exact shape: the
+/// emitted file consists of the same blocks (generic specialisations) in another order and
+/// its source declares a generic; or it differs only in the member order inside `modport`
+/// lists and its source mixes in another interface and has a modport default.
+fn known_order_shape(rel: &str, got: &[u8], want: &[u8], project: &Project) -> Option<&'static str> {
+    if !rel.ends_with(".sv") {
+        return None;
+    }
+    let stem = std::path::Path::new(rel).file_stem()?.to_string_lossy().to_string();
+    let src = project.files.iter().find(|(k, _)| k.ends_with(&format!("/{stem}.veryl")) || **k == format!("{stem}.veryl")).map(|(_, v)| v.as_str())?;
+    let (a, b) = (String::from_utf8_lossy(got).to_string(), String::from_utf8_lossy(want).to_string());
+    let blocks = |t: &str| {
+        let mut out = vec![];
+        let mut cur = String::new();
+        for l in t.lines() {
+            cur.push_str(l);
+            cur.push('\n');
+            if l.starts_with("endmodule") || l.starts_with("endinterface") || l.starts_with("endpackage") {
+                out.push(std::mem::take(&mut cur).trim().to_string());
+            }
+        }
+        out.push(cur.trim().to_string());
+        out.sort();
+        out
+    };
+    if src.contains("::<") && blocks(&a) == blocks(&b) {
+        return Some("generic-instance-order");
+    }
+    let modports_sorted = |t: &str| {
+        let mut out: Vec<String> = vec![];
+        let mut inside: Option<Vec<String>> = None;
+        for l in t.lines() {
+            match inside.as_mut() {
+                Some(members) => {
+                    if l.trim() == ");" {
+                        members.sort();
+                        out.append(members);
+                        out.push(l.to_string());
+                        inside = None;
+                    } else {
+                        members.push(l.trim().trim_end_matches(',').to_string());
+                    }
+                }
+                None => {
+                    out.push(l.to_string());
+                    if l.trim_start().starts_with("modport ") && l.trim_end().ends_with('(') {
+                        inside = Some(vec![]);
+                    }
+                }
+            }
+        }
+        out
+    };
+    if src.contains("mixin ") && src.contains("..") && modports_sorted(&a) == modports_sorted(&b) {
+        return Some("mixin-modport-default-order");
+    }
+    None
 }
 
 pub fn gen_project(seed: u64) -> Project {
@@ -207,6 +276,17 @@ pub fn gen_project(seed: u64) -> Project {
         let extra = wgen::gen_project(&mut rng, true, false);
         for (k, v) in extra.project.files {
             g.project.files.entry(k).or_insert(v);
+        }
+    }
+    // One generic instantiated with different arguments from two files: the order of the
+    // emitted specialisations must not follow the processing order.
+    if rng.chance(1, 4) {
+        for u in wgen::shapes::units() {
+            if u.name == "generic" {
+                for (k, sl) in u.slots.iter().enumerate() {
+                    g.project.files.insert(sl.path.to_string(), sl.variants[if k == 2 { 1 } else { 0 }].to_string());
+                }
+            }
         }
     }
     // A diagnostics limit makes "which diagnostics survive" a function of the processing
